@@ -1323,6 +1323,9 @@ def simp_sign_inf_zeroext(expr_s, expr):
         # cst is negative
         return ExprInt(0, expr.size)
     # cst is positive
+    if cst >> src.size:
+        # cst is above every value of X.zeroExt()
+        return ExprInt(1, expr.size)
     if expr.is_op(TOK_INF_SIGNED):
         # X.zeroExt() <s cst => X.zeroExt() <u cst (cst positive)
         return ExprOp(TOK_INF_UNSIGNED, src, expr_s(arg2[:src.size]))
@@ -1656,9 +1659,10 @@ def simp_test_signext_inf(expr_s, expr):
     if -(1 << (base.size - 1)) <= tmp < (1 << (base.size - 1)):
         # Can trunc integer
         return ExprOp(expr.op, base, expr_s(cst[:base.size]))
-    if (tmp >= (1 << (base.size - 1)) or
-        tmp < -(1 << (base.size - 1)) ):
+    if tmp >= (1 << (base.size - 1)):
         return ExprInt(1, 1)
+    if tmp < -(1 << (base.size - 1)):
+        return ExprInt(0, 1)
     return expr
 
 
